@@ -2,6 +2,7 @@ package syncx
 
 import (
 	"context"
+	"errors"
 	"fmt"
 	"testing"
 	"time"
@@ -218,7 +219,7 @@ func c19Oracle(run *vk.Run, w *SWorld, cfg SCfg, hist []Ev, metas map[*spawned]*
 func TestC19(t *testing.T) {
 	run := vk.NewRun("C19", "model_checking")
 	defer run.Finish()
-	run.SetRule("breadth-first exploration of event histories on the real Syncer (+ real store) over {Head() call, deliver next, advance 3s/40s/4000s, answer of the held trusted-head request {newer, same, error, soft+header} or of the held initialisation request {fresh tip, old header, error}, range answers} from stores {empty, fresh head, stale head, expired head}; oracle per completed Head() call using what was recorded when it was issued (subjective head, recency, expiry, request counter) and per state (single flight, monotone results); distinct = (store kind, head class, request delta, outcome)")
+	run.SetRule("breadth-first exploration of event histories on the real Syncer (+ real store) over {Head() call, deliver next, advance 3s/40s/4000s, answer of the held trusted-head request {newer, same, error, soft+header} or of the held initialisation request {fresh tip, old header, error}, range answers} from stores {empty, fresh head, stale head, expired head}; Start itself with its (re)initialisation request held while the clock advances {none, 40s, 3000s, 4000s, 3000+4000s} and then answered {fresh tip, error}: a head adopted by Start is not expired when the answer arrives; oracle per completed Head() call using what was recorded when it was issued (subjective head, recency, expiry, request counter) and per state (single flight, monotone results); distinct = (store kind, head class, request delta, outcome)")
 	run.Assume("recency threshold 30s (3 x blockTime 10s), trusting period 1h, NetworkHeadRequestTimeout 2s")
 
 	var rc sCase
@@ -312,6 +313,20 @@ func TestC19(t *testing.T) {
 		}
 		return step
 	}
+	if replay && rc.Cfg.HoldStart {
+		var advs []int
+		ans := "tip"
+		for _, e := range rc.Hist {
+			if e.K == "advance" {
+				advs = append(advs, e.D)
+			} else {
+				ans = e.A
+			}
+		}
+		c19StartHistory(t, run, rc.Cfg, advs, ans)
+		fmt.Printf("replayed Start history [%s] on %v: violations=%d\n", evString(rc.Hist), rc.Cfg, run.Violations())
+		return
+	}
 	if replay {
 		s := exec(t, rc.Cfg, rc.Hist)
 		fmt.Printf("replayed [%s] on %v: state=%s violations=%d\n", evString(rc.Hist), rc.Cfg, s.Key, run.Violations())
@@ -333,6 +348,16 @@ func TestC19(t *testing.T) {
 	// a write of the head the trusted peers reported stalls in the store while gossip moves on, and
 	// then fails: nothing a Head() caller has been told may be taken back
 	cfgs = append(cfgs, SCfg{N: 8, S: 3, NetHead: 3, Batch: 1, Hold: true, HeadAgeS: 100, FreshAfterS: true, HoldAppend: 4})
+	// Start as part of the history: on an empty store and on a store whose head is expired, Start's own
+	// (re)initialisation request is held, the clock advances, then the trusted peers answer
+	for _, cfg := range []SCfg{{N: 10, S: 0, Batch: 1, Hold: true, HoldStart: true}, {N: 10, S: 3, Batch: 1, Hold: true, HeadAgeS: 7200, FreshAfterS: true, HoldStart: true}} {
+		for _, advs := range [][]int{{}, {40}, {3000}, {4000}, {3000, 4000}} {
+			for _, ans := range []string{"tip", "error"} {
+				c19StartHistory(t, run, cfg, advs, ans)
+				run.AddEval(1)
+			}
+		}
+	}
 	for _, cfg := range cfgs {
 		cfg := cfg
 		depth := depth
@@ -363,4 +388,62 @@ func TestC19(t *testing.T) {
 	run.AddStates(int64(states))
 	run.AddTransitions(int64(trans))
 	_ = context.Background
+}
+
+// c19StartHistory: Start with its (re)initialisation request to the trusted peers held, clock advances, then the
+// answer. Whatever Start returns, a head it adopted must not be expired at the moment it was adopted.
+func c19StartHistory(t *testing.T, run *vk.Run, cfg SCfg, advs []int, ans string) {
+	hist := []Ev{}
+	for _, a := range advs {
+		hist = append(hist, Ev{K: "advance", D: a})
+	}
+	hist = append(hist, Ev{K: "answer", A: ans})
+	feat := fmt.Sprintf("start-held,S%d,age=%d,advances=%v,answer=%s", cfg.S, cfg.HeadAgeS, advs, ans)
+	br := vk.Bubble(t, func() {
+		w, err := NewSWorld(cfg)
+		if err != nil {
+			run.HarnessError("C19 world: %v", err)
+			return
+		}
+		defer w.Close()
+		w.G.mu.Lock()
+		w.G.Hold = true
+		w.G.mu.Unlock()
+		call := vk.Spawn(func() (*vk.H, error) {
+			ctx, cancel := context.WithTimeout(context.Background(), 3*time.Hour)
+			defer cancel()
+			return nil, w.Sy.Start(ctx)
+		})
+		w.StartErr = errors.New("start pending")
+		vk.Settle()
+		if o := w.G.Oldest(); o == nil || o.Kind != "head" || o.Trusted != nil {
+			run.HarnessError("C19 %s: Start did not issue a (re)initialisation request (oldest held call %v)", feat, o)
+			return
+		}
+		for _, a := range advs {
+			vk.Advance(time.Duration(a) * time.Second)
+		}
+		w.G.AnswerOldest(ans, 0)
+		vk.Settle()
+		if !call.Done() {
+			run.Distinct(feat + "|start-still-pending")
+			return
+		}
+		adoptedAt := time.Now()
+		w.StartErr = call.Err
+		if call.Panic != "" {
+			run.Violate("C19/panic/"+feat, sCase{cfg, hist}, "Start panicked: %s", call.Panic)
+			return
+		}
+		run.Distinct(fmt.Sprintf("%s|err=%v", feat, call.Err != nil))
+		if call.Err != nil {
+			return
+		}
+		if h := w.subjective(); h != nil && h.Time().Add(c19Trusting).Before(adoptedAt) {
+			run.Violate("C19/expired-head-adopted/"+feat, sCase{cfg, hist}, "Start succeeded and adopted %v, which had expired (trusting period %v) by the time the trusted peers' answer arrived", h, c19Trusting)
+		}
+	})
+	if br.Panic != "" {
+		run.Violate("C19/panic/"+feat, sCase{cfg, hist}, "panic: %s\n%s", br.Panic, br.Stack)
+	}
 }
